@@ -505,6 +505,27 @@ def index_guard(fn, st, idx, arr):
         if render(lit.lhs) == it and (lit.rhs.const_value() is not None and lit.rhs.const_value() <= arr.size) and lit.pol:
             if cfg.dominates(s, tb) or s == tb:
                 return True
+    # two-step bound  `if (n >= sizeof a) return ..;  for (i = 0; i < n; i++) a[i] = ..`:  i < n on the way in, n < size before that, n never reassigned
+    for (b, i, s) in cfg.edges():
+        lit = cfg.edge_lit(b, i)
+        if lit is None or lit.kind != "lt" or not lit.pol or render(lit.lhs) != it:
+            continue
+        v9 = lit.rhs.strip()
+        if v9.k != "DeclRefExpr" or v9.j.get("dk") not in ("local", "param"):
+            continue
+        if not (cfg.dominates(s, tb) or s == tb):
+            continue
+        from .dataflow import ReachingDefs as _RDv
+        dv = [d for d in _RDv(fn).defs if d.var == v9.j["name"]]
+        if len(dv) > 1 or any(render(a9) == "&" + v9.j["name"] for c9 in fn.calls() for a9 in c9.call_args()):
+            continue
+        for (b2, i2, s2) in cfg.edges():
+            l2 = cfg.edge_lit(b2, i2)
+            if l2 is None or l2.kind != "lt" or not l2.pol or render(l2.lhs) != v9.j["name"]:
+                continue
+            c2 = l2.rhs.const_value()
+            if c2 is not None and c2 <= arr.size and (cfg.dominates(s2, tb) or s2 == tb):
+                return True
     # the count returned by readlink()/read() into this very array with a limit below its size:  n = readlink(p, a, sizeof(a) - 1); a[n] = 0;
     i9 = idx.strip()
     if i9.k == "DeclRefExpr" and i9.j.get("dk") == "local":
